@@ -1,2 +1,609 @@
-(* Proofs for C11. *)
-From WI Require Import Lib.Base Lib.Info Model.PgpEntity.
+(* Proofs for C11: which verification every listed identity / subkey has passed, unambiguous
+   framing of the hashed messages, and the bit-flip formulation relative to the named
+   cryptographic hypothesis.  No axioms; standard library only. *)
+From WI Require Import Lib.Base Lib.Info gen.PgpTables Model.PgpKey Model.PgpEntity Proofs.PgpKey.
+From Coq Require Import List NArith ZArith Lia Bool.
+From Coq Require Import ZifyN ZifyNat ZifyBool.
+Import ListNotations.
+Open Scope N_scope.
+
+(* ------------------------------------------------------------------ *)
+(* what a successful signature check means                             *)
+(* ------------------------------------------------------------------ *)
+Lemma bind_ok' : forall {A B} (r : result A) (f : A -> result B) b,
+  bind r f = Ok b -> exists a, r = Ok a /\ f a = Ok b.
+Proof. intros A B r f b H. destruct r; simpl in H; try discriminate. eauto. Qed.
+
+(* the digest was computed over exactly prefix ++ suffix, its first two octets are the hash
+   prefix stored in the packet, key and signature name the same algorithm, and the primitive accepted *)
+Definition sig_accepted (c : cfg) (P : params) (k : pubkey) (msg : bytes) (s : sigcore) : Prop :=
+  pk_can_sign k = true /\
+  exists dg, p_D P (sc_hash s) msg = Ok dg /\ tag_match dg (sc_tag s) = true /\
+             pk_algo k = sc_alg s /\ crypto_check c P k s dg = Ok true.
+
+Lemma verify_signature_inv : forall c P k prefix s,
+  verify_signature c P k prefix s = Ok tt -> sig_accepted c P k (prefix ++ suffix s) s.
+Proof.
+  intros c P k prefix s H. unfold verify_signature in H.
+  destruct (pk_can_sign k) eqn:Ec; simpl in H; [|discriminate].
+  apply bind_ok' in H. destruct H as [dg [Ed H]].
+  destruct (tag_match dg (sc_tag s)) eqn:Et; simpl in H; [|discriminate].
+  destruct (pk_algo k =? sc_alg s) eqn:Ea; simpl in H; [|discriminate].
+  apply bind_ok' in H. destruct H as [ok [Ek H]].
+  destruct ok; [|discriminate].
+  split; auto. exists dg. repeat split; auto. now apply N.eqb_eq.
+Qed.
+
+Lemma verify_uid_sig_inv : forall c P k id s,
+  verify_uid_sig c P k id s = Ok tt ->
+  p_avail P (sc_hash s) = true /\ sig_accepted c P k (uid_hash_input k id ++ suffix s) s.
+Proof.
+  intros c P k id s H. unfold verify_uid_sig in H.
+  destruct (p_avail P (sc_hash s)); simpl in H; [|discriminate].
+  split; auto. now apply verify_signature_inv.
+Qed.
+
+Lemma verify_key_sig_inv : forall c P k sk s,
+  verify_key_sig c P k sk s = Ok tt ->
+  sig_accepted c P k (binding_hash_input k sk ++ suffix (s_core s)) (s_core s) /\
+  (has_flag (sc_flags (s_core s)) pgp_flag_sign = true ->
+   exists e, s_emb s = Some e /\ sig_accepted c P sk (binding_hash_input k sk ++ suffix e) e).
+Proof.
+  intros c P k sk s H. unfold verify_key_sig in H.
+  destruct (p_avail P (sc_hash (s_core s))); simpl in H; [|discriminate].
+  apply bind_ok' in H. destruct H as [u [E H]]. destruct u.
+  split; [now apply verify_signature_inv|].
+  intros F. rewrite F in H. destruct (s_emb s) as [e|]; [|discriminate].
+  destruct (p_avail P (sc_hash e)); simpl in H; [|discriminate].
+  exists e. split; auto. now apply verify_signature_inv.
+Qed.
+
+(* ------------------------------------------------------------------ *)
+(* the packet state machine                                            *)
+(* ------------------------------------------------------------------ *)
+Definition sig_evs (l : list sigp) : list event := map (fun s => EvP (PSig s)) l.
+
+Lemma sig_evs_app : forall a b, sig_evs (a ++ b) = sig_evs a ++ sig_evs b.
+Proof. intros. unfold sig_evs. apply map_app. Qed.
+
+(* in [evs] the user-ID packet [name] is followed, with nothing but signature packets in between,
+   by the signature packet [s] *)
+Definition uid_followed_by (evs : list event) (name : bytes) (s : sigp) : Prop :=
+  exists pre sigs post, evs = pre ++ EvP (PUid name) :: sig_evs sigs ++ EvP (PSig s) :: post.
+(* the same for a subkey packet *)
+Definition subkey_followed_by (evs : list event) (k : pubkey) (s : sigp) : Prop :=
+  exists pre sec sigs post, evs = pre ++ EvP (PKey true sec k) :: sig_evs sigs ++ EvP (PSig s) :: post.
+
+Section Machine.
+  Variable c : cfg.
+  Variable P : params.
+  Variable primary : pubkey.
+  Variable pid : N.
+
+  Definition id_bound (evs : list event) (i : identity) : Prop :=
+    exists s, uid_followed_by evs (id_name i) s /\ s_core s = id_self i /\
+              is_self_cert pid (id_self i) = true /\
+              verify_uid_sig c P primary (id_name i) (id_self i) = Ok tt.
+
+  Definition binding_type (t : N) : bool := (t =? pgp_sigtype_subkey_binding) || (t =? pgp_sigtype_subkey_revocation).
+
+  Definition sub_bound (evs : list event) (sk : subkey) : Prop :=
+    exists s, subkey_followed_by evs (sk_key sk) s /\ s_core s = sk_sig sk /\
+              binding_type (sc_type (sk_sig sk)) = true /\
+              verify_key_sig c P primary (sk_key sk) s = Ok tt.
+
+  Lemma id_bound_mono : forall evs more i, id_bound evs i -> id_bound (evs ++ more) i.
+  Proof.
+    intros evs more i (s & (pre & sigs & post & E) & H). exists s. split; auto.
+    exists pre, sigs, (post ++ more). subst evs. rewrite <- app_assoc. simpl. f_equal. f_equal.
+    rewrite <- app_assoc. reflexivity.
+  Qed.
+  Lemma sub_bound_mono : forall evs more k, sub_bound evs k -> sub_bound (evs ++ more) k.
+  Proof.
+    intros evs more k (s & (pre & sec & sigs & post & E) & H). exists s. split; auto.
+    exists pre, sec, sigs, (post ++ more). subst evs. rewrite <- app_assoc. simpl. f_equal. f_equal.
+    rewrite <- app_assoc. reflexivity.
+  Qed.
+
+  Definition st_inv (done : list event) (st : est) : Prop :=
+    Forall (id_bound done) (st_ids st) /\ Forall (sub_bound done) (st_subs st).
+
+  Lemma st_inv_mono : forall done more st, st_inv done st -> st_inv (done ++ more) st.
+  Proof.
+    intros done more st [A B]. split.
+    - eapply Forall_impl; [|exact A]. intros. now apply id_bound_mono.
+    - eapply Forall_impl; [|exact B]. intros. now apply sub_bound_mono.
+  Qed.
+
+  Definition mode_inv (done : list event) (m : mode) : Prop :=
+    match m with
+    | MTop => True
+    | MUid name self others =>
+        exists pre sigs, done = pre ++ EvP (PUid name) :: sig_evs sigs /\
+          match self with
+          | None => True
+          | Some sc => exists s1 s s2, sigs = s1 ++ s :: s2 /\ s_core s = sc /\
+                         is_self_cert pid sc = true /\ verify_uid_sig c P primary name sc = Ok tt
+          end
+    | MSub k sg =>
+        exists pre sec sigs, done = pre ++ EvP (PKey true sec k) :: sig_evs sigs /\
+          match sg with
+          | None => True
+          | Some sc => exists s1 s s2, sigs = s1 ++ s :: s2 /\ s_core s = sc /\
+                         binding_type (sc_type sc) = true /\ verify_key_sig c P primary k s = Ok tt
+          end
+    end.
+
+  Lemma put_identity_Forall : forall (Q : identity -> Prop) i l, Q i -> Forall Q l -> Forall Q (put_identity i l).
+  Proof.
+    intros Q i l Hi H. induction H; simpl.
+    - constructor; auto.
+    - destruct (bytes_eqb (id_name x) (id_name i)); constructor; auto.
+  Qed.
+
+  Lemma close_inv : forall done st m st', st_inv done st -> mode_inv done m ->
+    close_mode st m = Ok st' -> st_inv done st'.
+  Proof.
+    intros done st m st' [A B] M H. destruct m as [|name self others|k sg]; simpl in H.
+    - inversion H; subst. split; auto.
+    - destruct self as [sc|]; inversion H; subst; [|split; auto].
+      split; auto. simpl. apply put_identity_Forall; auto.
+      destruct M as (pre & sigs & E & s1 & s & s2 & Es & Ec & Hc & Hv).
+      exists s. simpl. repeat split; auto.
+      exists pre, s1, (sig_evs s2). subst done sigs. rewrite sig_evs_app. reflexivity.
+    - destruct sg as [sc|]; [|discriminate]. inversion H; subst. split; auto. simpl.
+      apply Forall_app. split; auto. constructor; auto.
+      destruct M as (pre & sec & sigs & E & s1 & s & s2 & Es & Ec & Hc & Hv).
+      exists s. simpl. repeat split; auto.
+      exists pre, sec, s1, (sig_evs s2). subst done sigs. rewrite sig_evs_app. reflexivity.
+  Qed.
+
+  Definition next_inv (done : list event) (n : next) : Prop :=
+    match n with
+    | Cont st m => st_inv done st /\ mode_inv done m
+    | Stop st => st_inv done st
+    end.
+
+  Lemma top_step_inv : forall done st p, st_inv done st -> next_inv (done ++ [EvP p]) (top_step st p).
+  Proof.
+    intros done st p I. pose proof (st_inv_mono done [EvP p] st I) as I'.
+    destruct p as [sub sec k|id|s]; simpl.
+    - destruct sub; simpl; auto. split; auto. exists done, sec, []. simpl. split; auto.
+    - split; auto. exists done, []. simpl. split; auto.
+    - destruct (sc_type (s_core s) =? pgp_sigtype_key_revocation); simpl; split; auto.
+      all: try (destruct I' as [A B]; split; auto).
+  Qed.
+
+  Lemma snoc_sig : forall pre x sigs s,
+    (pre ++ x :: sig_evs sigs) ++ [EvP (PSig s)] = pre ++ x :: sig_evs (sigs ++ [s]).
+  Proof. intros. rewrite sig_evs_app. rewrite <- app_assoc. reflexivity. Qed.
+
+  Definition is_sig_packet (p : packet) : bool := match p with PSig _ => true | _ => false end.
+
+  Lemma step_close : forall st m p, m <> MTop -> is_sig_packet p = false ->
+    step c P primary pid st m p = bind (close_mode st m) (fun st' => Ok (top_step st' p)).
+  Proof. intros st m p Hm Hp. destruct m; destruct p; try reflexivity; try discriminate; contradiction. Qed.
+
+  Lemma step_top : forall st p, step c P primary pid st MTop p = Ok (top_step st p).
+  Proof. reflexivity. Qed.
+
+  Lemma step_uid_sig : forall st name self others s,
+    step c P primary pid st (MUid name self others) (PSig s) =
+      if is_self_cert pid (s_core s)
+      then bind (verify_uid_sig c P primary name (s_core s)) (fun _ => Ok (Cont st (MUid name (Some (s_core s)) others)))
+      else Ok (Cont st (MUid name self (others ++ [s_core s]))).
+  Proof. reflexivity. Qed.
+
+  Lemma step_sub_sig : forall st k sg s,
+    step c P primary pid st (MSub k sg) (PSig s) =
+      if negb (binding_type (sc_type (s_core s))) then Err "subkey signature with wrong type"
+      else bind (verify_key_sig c P primary k s) (fun _ =>
+             if sc_type (s_core s) =? pgp_sigtype_subkey_revocation then Ok (Cont st (MSub k (Some (s_core s))))
+             else if should_replace sg (s_core s) then Ok (Cont st (MSub k (Some (s_core s))))
+             else Ok (Cont st (MSub k sg))).
+  Proof. reflexivity. Qed.
+
+  Lemma step_inv : forall done st m p n, st_inv done st -> mode_inv done m ->
+    step c P primary pid st m p = Ok n -> next_inv (done ++ [EvP p]) n.
+  Proof.
+    intros done st m p n I M H.
+    destruct (is_sig_packet p) eqn:Ep.
+    - destruct p as [| |s]; try discriminate.
+      destruct m as [|name self others|k sg].
+      + rewrite step_top in H. injection H as <-. exact (top_step_inv done st (PSig s) I).
+      + rewrite step_uid_sig in H. destruct M as (pre & sigs & E & Hs).
+        destruct (is_self_cert pid (s_core s)) eqn:Esc.
+        * apply bind_ok' in H. destruct H as [u [Ev H]]. destruct u. inversion H; subst n.
+          split; [now apply st_inv_mono|].
+          exists pre, (sigs ++ [s]). rewrite E. split; [apply snoc_sig|].
+          exists sigs, s, []. repeat split; auto.
+        * inversion H; subst n. split; [now apply st_inv_mono|].
+          exists pre, (sigs ++ [s]). rewrite E. split; [apply snoc_sig|].
+          destruct self as [sc|]; auto.
+          destruct Hs as (s1 & s0 & s2 & Es & R). exists s1, s0, (s2 ++ [s]). split; auto.
+          rewrite Es. rewrite <- app_assoc. reflexivity.
+      + rewrite step_sub_sig in H. destruct M as (pre & sec & sigs & E & Hs).
+        destruct (binding_type (sc_type (s_core s))) eqn:Et; simpl negb in H; cbv iota in H; [|discriminate].
+        apply bind_ok' in H. destruct H as [u [Ev H]]. destruct u.
+        assert (New : mode_inv (done ++ [EvP (PSig s)]) (MSub k (Some (s_core s)))).
+        { exists pre, sec, (sigs ++ [s]). rewrite E. split; [apply snoc_sig|].
+          exists sigs, s, []. repeat split; auto. }
+        assert (Old : mode_inv (done ++ [EvP (PSig s)]) (MSub k sg)).
+        { exists pre, sec, (sigs ++ [s]). rewrite E. split; [apply snoc_sig|].
+          destruct sg as [sc|]; auto.
+          destruct Hs as (s1 & s0 & s2 & Es & R). exists s1, s0, (s2 ++ [s]). split; auto.
+          rewrite Es. rewrite <- app_assoc. reflexivity. }
+        destruct (sc_type (s_core s) =? pgp_sigtype_subkey_revocation).
+        * inversion H; subst n. split; [now apply st_inv_mono | exact New].
+        * destruct (should_replace sg (s_core s)); inversion H; subst n;
+            (split; [now apply st_inv_mono | auto]).
+    - destruct m as [|name self others|k sg].
+      + rewrite step_top in H. injection H as <-. exact (top_step_inv done st p I).
+      + rewrite step_close in H by (discriminate || assumption).
+        apply bind_ok' in H. destruct H as [st' [Ec H]]. injection H as <-.
+        exact (top_step_inv done st' p (close_inv _ _ _ _ I M Ec)).
+      + rewrite step_close in H by (discriminate || assumption).
+        apply bind_ok' in H. destruct H as [st' [Ec H]]. injection H as <-.
+        exact (top_step_inv done st' p (close_inv _ _ _ _ I M Ec)).
+  Qed.
+
+  Lemma finish_inv : forall st e, finish c P primary st = Ok e ->
+    e_ids e = st_ids st /\ e_subkeys e = st_subs st /\ e_primary e = primary /\ st_ids st <> [].
+  Proof.
+    intros st e H. unfold finish in H.
+    assert (N : st_ids st <> []) by (destruct (st_ids st); [discriminate | discriminate]).
+    destruct (st_ids st) eqn:E; [discriminate|]. rewrite <- E in *.
+    apply bind_ok' in H. destruct H as [u [_ H]]. injection H as <-. simpl. auto.
+  Qed.
+
+  Lemma run_inv : forall rest done st m e, st_inv done st -> mode_inv done m ->
+    run_packets c P primary pid st m rest = Ok e ->
+    Forall (id_bound (done ++ rest)) (e_ids e) /\ Forall (sub_bound (done ++ rest)) (e_subkeys e) /\
+    e_primary e = primary /\ e_ids e <> [].
+  Proof.
+    induction rest as [|ev rest IH]; intros done st m e I M H.
+    - simpl in H. apply bind_ok' in H. destruct H as [st' [Ec H]].
+      pose proof (close_inv _ _ _ _ I M Ec) as [A B].
+      apply finish_inv in H. destruct H as (E1 & E2 & E3 & E4).
+      rewrite app_nil_r. rewrite E1, E2. auto.
+    - destruct ev as [p| | | |]; simpl in H; try discriminate.
+      apply bind_ok' in H. destruct H as [n [Es H]].
+      pose proof (step_inv _ _ _ _ _ I M Es) as N.
+      replace (done ++ EvP p :: rest) with ((done ++ [EvP p]) ++ rest) by (rewrite <- app_assoc; reflexivity).
+      destruct n as [st' m'|st'].
+      + destruct N as [I' M']. eapply IH; eauto.
+      + simpl in N. destruct (st_inv_mono _ rest _ N) as [A B].
+        apply finish_inv in H. destruct H as (E1 & E2 & E3 & E4). rewrite E1, E2. auto.
+  Qed.
+End Machine.
+
+(* ------------------------------------------------------------------ *)
+(* C11_identity_bound / C11_subkey_bound                               *)
+(* ------------------------------------------------------------------ *)
+Definition first_key (evs : list event) : option pubkey :=
+  match evs with EvP (PKey _ _ k) :: _ => Some k | _ => None end.
+
+Theorem read_entity_bound : forall c P evs e, read_entity c P evs = Ok e ->
+  first_key evs = Some (e_primary e) /\
+  algo_can_sign (pk_algo (e_primary e)) = true /\
+  e_ids e <> [] /\
+  Forall (id_bound c P (e_primary e) (key_id (p_H P) (e_primary e)) evs) (e_ids e) /\
+  Forall (sub_bound c P (e_primary e) evs) (e_subkeys e).
+Proof.
+  intros c P evs e H. unfold read_entity in H.
+  destruct evs as [|[p| | | |] rest]; try discriminate.
+  destruct p as [sub sec k|id|s]; try discriminate.
+  destruct (algo_can_sign (pk_algo k)) eqn:Ea; simpl in H; [|discriminate].
+  pose proof (run_inv c P k (key_id (p_H P) k) rest [EvP (PKey sub sec k)] (mkest [] [] []) MTop e) as R.
+  destruct R as (A & B & E1 & E2); auto.
+  - split; constructor.
+  - simpl. exact I.
+  - subst k. simpl in A, B. simpl. auto.
+Qed.
+
+(* ------------------------------------------------------------------ *)
+(* the children of the description are exactly the bound items         *)
+(* ------------------------------------------------------------------ *)
+Lemma insert_id_In : forall i l x, In x (insert_id i l) <-> x = i \/ In x l.
+Proof.
+  induction l; simpl; intros x.
+  - intuition.
+  - destruct (bytes_ltb (id_name i) (id_name a)); simpl; rewrite ?IHl; intuition.
+Qed.
+Lemma sort_ids_In : forall l x, In x (sort_ids l) <-> In x l.
+Proof.
+  induction l; simpl; intros x.
+  - tauto.
+  - unfold sort_ids in *. simpl. rewrite insert_id_In. rewrite IHl. intuition.
+Qed.
+
+Theorem children_are_bound_items : forall c P private stream i,
+  pgp_key c P private stream = Ok i ->
+  exists e, read_entity c P (events_of c P stream) = Ok e /\
+    forall child, In child (i_children i) ->
+      (exists id, In id (e_ids e) /\ child = identity_info c (e_primary e) id) \/
+      (exists sk, In sk (e_subkeys e) /\ child = subkey_info c (p_H P) sk).
+Proof.
+  intros c P private stream i H. unfold pgp_key in H.
+  apply bind_ok' in H. destruct H as [e [E H]]. inversion H; subst. exists e. split; auto.
+  intros child Hc. simpl in Hc. apply in_app_or in Hc. destruct Hc as [Hc|Hc]; apply in_map_iff in Hc;
+    destruct Hc as [x [Ex Hx]].
+  - left. exists x. split; auto. now apply sort_ids_In.
+  - right. exists x. split; auto.
+Qed.
+
+(* ------------------------------------------------------------------ *)
+(* C11_hash_input_injective: the hashed messages are uniquely decodable *)
+(* ------------------------------------------------------------------ *)
+Lemma app_eq_len : forall {A} (a1 a2 b1 b2 : list A), length a1 = length a2 ->
+  a1 ++ b1 = a2 ++ b2 -> a1 = a2 /\ b1 = b2.
+Proof.
+  induction a1; destruct a2; simpl; intros b1 b2 L H; try discriminate; auto.
+  inversion H; subst. destruct (IHa1 a2 b1 b2) as [E1 E2]; auto. subst. auto.
+Qed.
+
+Lemma lenN_eq_length : forall (a b : bytes), lenN a = lenN b -> length a = length b.
+Proof. unfold lenN. intros. lia. Qed.
+
+Lemma frame16_inj : forall a b x y, lenN a < 65536 -> lenN b < 65536 ->
+  be16 (lenN a) ++ a ++ x = be16 (lenN b) ++ b ++ y -> a = b /\ x = y.
+Proof.
+  intros a b x y Ha Hb H. apply app_eq_len in H; [|unfold be16; now rewrite !N_to_be_length].
+  destruct H as [L H]. apply N_to_be_inj in L; [| exact Ha | exact Hb].
+  apply app_eq_len in H; auto. now apply lenN_eq_length.
+Qed.
+
+Lemma frame32_inj : forall a b x y, lenN a < 4294967296 -> lenN b < 4294967296 ->
+  be32 (lenN a) ++ a ++ x = be32 (lenN b) ++ b ++ y -> a = b /\ x = y.
+Proof.
+  intros a b x y Ha Hb H. apply app_eq_len in H; [|unfold be32; now rewrite !N_to_be_length].
+  destruct H as [L H]. apply N_to_be_inj in L; [| exact Ha | exact Hb].
+  apply app_eq_len in H; auto. now apply lenN_eq_length.
+Qed.
+
+Lemma cons_inj : forall (a : N) l l', a :: l = a :: l' -> l = l'.
+Proof. intros a l l' H. now injection H. Qed.
+
+Lemma key_hash_input_inj : forall k k' x y, lenN (key_body k) < 65536 -> lenN (key_body k') < 65536 ->
+  key_hash_input k ++ x = key_hash_input k' ++ y -> key_body k = key_body k' /\ x = y.
+Proof.
+  intros k k' x y Hk Hk' H. unfold key_hash_input in H. rewrite <- !app_comm_cons in H.
+  apply cons_inj in H. rewrite <- !app_assoc in H. now apply frame16_inj in H.
+Qed.
+
+Lemma suffix_inj : forall s s', lenN (sc_hashed s) < 65536 -> lenN (sc_hashed s') < 65536 ->
+  suffix s = suffix s' -> sig_header s = sig_header s' /\ sc_hashed s = sc_hashed s'.
+Proof.
+  intros s s' Hs Hs' H. unfold suffix in H.
+  apply app_eq_len in H; [|reflexivity]. destruct H as [E H]. split; auto.
+  apply frame16_inj in H; tauto.
+Qed.
+
+Theorem uid_message_injective : forall k u s k' u' s',
+  lenN (key_body k) < 65536 -> lenN (key_body k') < 65536 ->
+  lenN u < 4294967296 -> lenN u' < 4294967296 ->
+  lenN (sc_hashed s) < 65536 -> lenN (sc_hashed s') < 65536 ->
+  uid_hash_input k u ++ suffix s = uid_hash_input k' u' ++ suffix s' ->
+  key_body k = key_body k' /\ u = u' /\ sc_hashed s = sc_hashed s' /\ sig_header s = sig_header s'.
+Proof.
+  intros k u s k' u' s' Hk Hk' Hu Hu' Hs Hs' H. unfold uid_hash_input in H.
+  rewrite <- !app_assoc in H. apply key_hash_input_inj in H; auto. destruct H as [E1 H].
+  rewrite <- !app_comm_cons in H. apply cons_inj in H. rewrite <- !app_assoc in H. apply frame32_inj in H; auto.
+  destruct H as [E2 H]. apply suffix_inj in H; auto. tauto.
+Qed.
+
+Theorem binding_message_injective : forall k sk s k' sk' s',
+  lenN (key_body k) < 65536 -> lenN (key_body k') < 65536 ->
+  lenN (key_body sk) < 65536 -> lenN (key_body sk') < 65536 ->
+  lenN (sc_hashed s) < 65536 -> lenN (sc_hashed s') < 65536 ->
+  binding_hash_input k sk ++ suffix s = binding_hash_input k' sk' ++ suffix s' ->
+  key_body k = key_body k' /\ key_body sk = key_body sk' /\ sc_hashed s = sc_hashed s' /\ sig_header s = sig_header s'.
+Proof.
+  intros k sk s k' sk' s' Hk Hk' Hsk Hsk' Hs Hs' H. unfold binding_hash_input in H.
+  rewrite <- !app_assoc in H. apply key_hash_input_inj in H; auto. destruct H as [E1 H].
+  apply key_hash_input_inj in H; auto. destruct H as [E2 H]. apply suffix_inj in H; auto. tauto.
+Qed.
+
+(* a certification can never be read as a subkey binding or vice versa *)
+Theorem uid_vs_binding_disjoint : forall k u s k' sk' s',
+  lenN (key_body k) < 65536 -> lenN (key_body k') < 65536 ->
+  uid_hash_input k u ++ suffix s <> binding_hash_input k' sk' ++ suffix s'.
+Proof.
+  intros k u s k' sk' s' Hk Hk' H. unfold uid_hash_input, binding_hash_input in H.
+  rewrite <- !app_assoc in H. apply key_hash_input_inj in H; auto. destruct H as [_ H].
+  unfold key_hash_input in H. rewrite <- !app_comm_cons in H. discriminate.
+Qed.
+
+(* and neither can be read as a key revocation (the message ends after the key) *)
+
+(* parsed objects satisfy the length bounds *)
+Lemma parse_sig_hashed_short : forall fuel l s rest, bytes_ok l = true ->
+  parse_sig_fuel fuel l = Ok (s, rest) -> lenN (sc_hashed (s_core s)) < 65536.
+Proof.
+  destruct fuel; intros l s rest Hok H; simpl in H; [discriminate|].
+  destruct l as [|v r]; [discriminate|].
+  destruct (negb (v =? 4)); [discriminate|].
+  destruct r as [|typ [|alg [|hid [|h1 [|h0 r1]]]]]; try discriminate.
+  destruct (negb (sig_alg_ok alg)); [discriminate|].
+  destruct (negb (hash_id_ok hid)); [discriminate|].
+  destruct (read_n (h1 * 256 + h0) r1) as [[hashed r2]|] eqn:E; [|discriminate].
+  apply read_n_spec in E. destruct E as [_ E].
+  assert (B : h1 < 256 /\ h0 < 256).
+  { do 4 (apply bytes_ok_cons in Hok; destruct Hok as [_ Hok]).
+    apply bytes_ok_cons in Hok; destruct Hok as [B1 Hok]. apply bytes_ok_cons in Hok; destruct Hok as [B0 _]. auto. }
+  apply bind_ok' in H. destruct H as [st1 [_ H]].
+  destruct r2 as [|u1 [|u0 r3]]; try discriminate.
+  destruct (read_n (u1 * 256 + u0) r3) as [[unhashed r4]|]; [|discriminate].
+  apply bind_ok' in H. destruct H as [st2 [_ H]].
+  destruct r4 as [|g0 [|g1 r5]]; try discriminate.
+  apply bind_ok' in H. destruct H as [[mpis r6] [_ H]]. inversion H; subst. simpl. lia.
+Qed.
+
+(* ------------------------------------------------------------------ *)
+(* C11_bitflip, relative to the cryptographic hypothesis               *)
+(* ------------------------------------------------------------------ *)
+(* [genuine k h msg value]: the holder of key k really produced signature value [value] on [msg]
+   with hash h.  The hypothesis says the signature check accepts nothing else — for RSA, DSA,
+   ECDSA and EdDSA with a collision-resistant hash this is existential unforgeability; no proof
+   assistant can discharge it, so it is a named premise. *)
+Definition flip_sensitive (P : params) (genuine : pubkey -> N -> bytes -> list mpi -> Prop) : Prop :=
+  forall c k msg s, sig_accepted c P k msg s -> genuine k (sc_hash s) msg (sc_mpis s).
+
+(* the certifications and bindings present in the unmodified key *)
+Record signed_uid := mksu { su_uid : bytes; su_sig : sigcore }.
+Record signed_sub := mkss { ss_key : pubkey; ss_sig : sigcore }.
+
+Definition genuine_of (k0 : pubkey) (uids : list signed_uid) (subs : list signed_sub)
+  (k : pubkey) (h : N) (msg : bytes) (v : list mpi) : Prop :=
+  key_body k = key_body k0 /\
+  ((exists x, In x uids /\ msg = uid_hash_input k0 (su_uid x) ++ suffix (su_sig x) /\ v = sc_mpis (su_sig x) /\ h = sc_hash (su_sig x)) \/
+   (exists x, In x subs /\ msg = binding_hash_input k0 (ss_key x) ++ suffix (ss_sig x) /\ v = sc_mpis (ss_sig x) /\ h = sc_hash (ss_sig x))).
+
+Definition sane_key (k : pubkey) : Prop := lenN (key_body k) < 65536.
+Definition sane_sig (s : sigcore) : Prop := lenN (sc_hashed s) < 65536.
+
+Theorem bitflip_identity : forall c P k0 uids subs evs e,
+  flip_sensitive P (genuine_of k0 uids subs) ->
+  sane_key k0 -> Forall (fun x => lenN (su_uid x) < 4294967296 /\ sane_sig (su_sig x)) uids ->
+  read_entity c P evs = Ok e ->
+  sane_key (e_primary e) ->
+  forall i, In i (e_ids e) -> lenN (id_name i) < 4294967296 -> sane_sig (id_self i) ->
+  exists x, In x uids /\
+    key_body (e_primary e) = key_body k0 /\ id_name i = su_uid x /\
+    sc_hashed (id_self i) = sc_hashed (su_sig x) /\ sig_header (id_self i) = sig_header (su_sig x) /\
+    sc_mpis (id_self i) = sc_mpis (su_sig x).
+Proof.
+  intros c P k0 uids subs evs e F S0 SU R Sp i Hi Li Si.
+  destruct (read_entity_bound _ _ _ _ R) as (_ & _ & _ & A & _).
+  rewrite Forall_forall in A. destruct (A i Hi) as (s & _ & _ & _ & V).
+  apply verify_uid_sig_inv in V. destruct V as [_ V].
+  apply F in V. destruct V as [Ek [(x & Hx & Em & Ev & _)|(x & Hx & Em & _)]].
+  - rewrite Forall_forall in SU. destruct (SU x Hx) as [Lx Sx].
+    apply uid_message_injective in Em; auto. destruct Em as (E1 & E2 & E3 & E4).
+    exists x. repeat split; auto.
+  - exfalso. revert Em. apply uid_vs_binding_disjoint; auto.
+Qed.
+
+Theorem bitflip_subkey : forall c P k0 uids subs evs e,
+  flip_sensitive P (genuine_of k0 uids subs) ->
+  sane_key k0 -> Forall (fun x => sane_key (ss_key x) /\ sane_sig (ss_sig x)) subs ->
+  read_entity c P evs = Ok e ->
+  sane_key (e_primary e) ->
+  forall sk, In sk (e_subkeys e) -> sane_key (sk_key sk) -> sane_sig (sk_sig sk) ->
+  exists x, In x subs /\
+    key_body (e_primary e) = key_body k0 /\ key_body (sk_key sk) = key_body (ss_key x) /\
+    sc_hashed (sk_sig sk) = sc_hashed (ss_sig x) /\ sig_header (sk_sig sk) = sig_header (ss_sig x) /\
+    sc_mpis (sk_sig sk) = sc_mpis (ss_sig x).
+Proof.
+  intros c P k0 uids subs evs e F S0 SS R Sp sk Hs Lk Ss.
+  destruct (read_entity_bound _ _ _ _ R) as (_ & _ & _ & _ & B).
+  rewrite Forall_forall in B. destruct (B sk Hs) as (s & _ & Ec & _ & V).
+  apply verify_key_sig_inv in V. destruct V as [V _]. rewrite Ec in V.
+  apply F in V. destruct V as [Ek [(x & Hx & Em & _)|(x & Hx & Em & Ev & _)]].
+  - exfalso. symmetry in Em. revert Em. apply uid_vs_binding_disjoint; auto.
+  - rewrite Forall_forall in SS. destruct (SS x Hx) as [Lx Sx].
+    apply binding_message_injective in Em; auto. destruct Em as (E1 & E2 & E3 & E4).
+    exists x. repeat split; auto.
+Qed.
+
+(* ------------------------------------------------------------------ *)
+(* the unrepaired code: witnesses                                      *)
+(* ------------------------------------------------------------------ *)
+(* F29: an EdDSA signature whose R has only 31 octets.  Whatever ed25519.Verify says about
+   64-octet signatures, the old code never asked it: it handed over 63 octets. *)
+Definition f29_key : pubkey := mkpub 1 22 (KEdDSA oid_ed25519 (mkmpi 263 (64 :: repeat 7 32))).
+Definition f29_sig : sigcore :=
+  mksig 19 22 8 [] [0; 0] [mkmpi 248 (repeat 9 31); mkmpi 256 (repeat 9 32)] 1 None None false 0.
+
+Lemma f29_legacy_rejects : forall P dg, crypto_check legacy P f29_key f29_sig dg = Ok false.
+Proof. intros. reflexivity. Qed.
+Lemma f29_fixed_asks_primitive : forall P dg,
+  crypto_check fixed P f29_key f29_sig dg = p_prim P f29_key 8 dg [0 :: repeat 9 31 ++ repeat 9 32].
+Proof. intros. reflexivity. Qed.
+
+(* F8: unprotected secret key with a cv25519 subkey *)
+Definition f8_key : pubkey := mkpub 1 18 (KECDH oid_x25519 (mkmpi 263 (64 :: repeat 7 32)) [3; 1; 8; 7]).
+Lemma f8_legacy_panics : forall P, parse_secret_tail legacy P f8_key false [0; 0; 8; 1; 0; 1] = Panic "impossible".
+Proof. intros. reflexivity. Qed.
+Lemma f8_fixed_parses : forall P, parse_secret_tail fixed P f8_key false [0; 0; 8; 1; 0; 1] = Ok tt.
+Proof. intros. reflexivity. Qed.
+
+(* F7, second form: a 21-octet EdDSA point reached ed25519.Verify, which panics *)
+Definition f7_short_key : pubkey := mkpub 1 22 (KEdDSA oid_ed25519 (mkmpi 167 (64 :: repeat 7 20))).
+Lemma f7_verify_panics : forall c P dg, is_panic (crypto_check c P f7_short_key f29_sig dg) = true.
+Proof. intros. reflexivity. Qed.
+Lemma f7_short_key_rejected : forall ecok,
+  parse_keymat fixed ecok 22 (9 :: oid_ed25519 ++ mpi_write (mkmpi 167 (64 :: repeat 7 20))) = Err "unsupported point length".
+Proof. intros. vm_compute. reflexivity. Qed.
+
+(* ------------------------------------------------------------------ *)
+(* the theorems in the form used by Props/C11.v                        *)
+(* ------------------------------------------------------------------ *)
+Lemma is_self_cert_inv : forall pid s, is_self_cert pid s = true ->
+  is_cert_type (sc_type s) = true /\ sc_issuer s = Some pid.
+Proof.
+  unfold is_self_cert. intros pid s H. apply andb_true_iff in H. destruct H as [H1 H2]. split; auto.
+  destruct (sc_issuer s) as [i|]; [|discriminate]. apply N.eqb_eq in H2. now subst.
+Qed.
+
+Theorem identity_bound : forall c P evs e, read_entity c P evs = Ok e ->
+  first_key evs = Some (e_primary e) /\ e_ids e <> [] /\
+  forall i, In i (e_ids e) ->
+    exists s, uid_followed_by evs (id_name i) s /\ s_core s = id_self i /\
+      is_cert_type (sc_type (id_self i)) = true /\
+      sc_issuer (id_self i) = Some (key_id (p_H P) (e_primary e)) /\
+      p_avail P (sc_hash (id_self i)) = true /\
+      sig_accepted c P (e_primary e) (uid_hash_input (e_primary e) (id_name i) ++ suffix (id_self i)) (id_self i).
+Proof.
+  intros c P evs e R. destruct (read_entity_bound _ _ _ _ R) as (F & _ & N & A & _).
+  split; auto. split; auto. intros i Hi. rewrite Forall_forall in A.
+  destruct (A i Hi) as (s & U & Ec & Sc & V). exists s.
+  apply is_self_cert_inv in Sc. destruct Sc as [T Is].
+  apply verify_uid_sig_inv in V. destruct V as [Av Acc].
+  split; [exact U|]. split; [exact Ec|]. split; [exact T|]. split; [exact Is|]. split; [exact Av | exact Acc].
+Qed.
+
+Theorem subkey_bound : forall c P evs e, read_entity c P evs = Ok e ->
+  forall sk, In sk (e_subkeys e) ->
+    exists s, subkey_followed_by evs (sk_key sk) s /\ s_core s = sk_sig sk /\
+      (sc_type (sk_sig sk) = pgp_sigtype_subkey_binding \/ sc_type (sk_sig sk) = pgp_sigtype_subkey_revocation) /\
+      sig_accepted c P (e_primary e) (binding_hash_input (e_primary e) (sk_key sk) ++ suffix (sk_sig sk)) (sk_sig sk) /\
+      (has_flag (sc_flags (sk_sig sk)) pgp_flag_sign = true ->
+       exists x, s_emb s = Some x /\
+         sig_accepted c P (sk_key sk) (binding_hash_input (e_primary e) (sk_key sk) ++ suffix x) x).
+Proof.
+  intros c P evs e R sk Hs. destruct (read_entity_bound _ _ _ _ R) as (_ & _ & _ & _ & B).
+  rewrite Forall_forall in B. destruct (B sk Hs) as (s & U & Ec & T & V). exists s.
+  apply verify_key_sig_inv in V. rewrite Ec in V. destruct V as [V1 V2].
+  split; [exact U|]. split; [exact Ec|]. split.
+  { unfold binding_type in T. apply orb_true_iff in T. destruct T as [T|T]; apply N.eqb_eq in T; auto. }
+  split; [exact V1 | exact V2].
+Qed.
+
+(* a concrete input meets the hypotheses: a key, a user ID and a certification that the
+   (permissive) parameters accept *)
+Definition ex_params : params :=
+  mkparams (fun _ => repeat 0 20) (fun _ _ => Ok [1; 2; 3]) (fun _ => true) (fun _ _ _ _ => Ok true)
+           (fun _ _ => Ok true) (fun _ => Ok true).
+Definition ex_key : pubkey := mkpub 1 1 (KRSA (mkmpi 16 [255; 1]) (mkmpi 2 [3])).
+Definition ex_sig : sigp :=
+  mksigp (mksig 19 1 8 [5; 2; 0; 0; 0; 1] [1; 2] [mkmpi 8 [200]] 1 None (Some 0) true 3) None.
+Definition ex_evs : list event := [EvP (PKey false false ex_key); EvP (PUid (bs "a")); EvP (PSig ex_sig)].
+Example ex_entity_accepted :
+  exists e, read_entity fixed ex_params ex_evs = Ok e /\ map id_name (e_ids e) = [bs "a"].
+Proof. eexists. split; vm_compute; reflexivity. Qed.
+(* and the same stream is rejected as soon as the primitive says no *)
+Example ex_entity_rejected :
+  is_ok (read_entity fixed (mkparams (fun _ => repeat 0 20) (fun _ _ => Ok [1; 2; 3]) (fun _ => true)
+                              (fun _ _ _ _ => Ok false) (fun _ _ => Ok true) (fun _ => Ok true)) ex_evs) = false.
+Proof. vm_compute. reflexivity. Qed.
+
+Theorem parsed_lengths : forall c ecok body k rest fuel l s rest',
+  bytes_ok body = true -> parse_public_key c ecok body = Ok (k, rest) ->
+  bytes_ok l = true -> parse_sig_fuel fuel l = Ok (s, rest') ->
+  lenN (key_body k) < 65536 /\ lenN (sc_hashed (s_core s)) < 65536.
+Proof.
+  intros c ecok body k rest fuel l s rest' H1 H2 H3 H4. split.
+  - exact (parsed_key_body_short c ecok body k rest H1 H2).
+  - exact (parse_sig_hashed_short fuel l s rest' H3 H4).
+Qed.
